@@ -305,12 +305,25 @@ def run(ctx):
                   isinstance(st.value.func.value, ast.Name) and st.value.func.value.id == lp.target.id]
         if isinstance(it, (ast.Tuple, ast.List)) and direct and not any(isinstance(x, (ast.Break, ast.Continue, ast.Return)) for x in ast.walk(lp)):
             cleared |= {self_attr(e) for e in it.elts if self_attr(e)}
+    # writer / clearer agreement: every cache the metadata merge (or the coordinator lookup) fills is emptied by reset_all_metadata
+    filled = set()
+    for wf in (ctx.func(KC + "._merge_topic_metadata"), ctx.func(KC + "._update_coordinator_for_group") if prog.has_func(KC + "._update_coordinator_for_group") else None):
+        if wf is None:
+            continue
+        for a_, evs in prog.direct_writes(wf).items():
+            if any(k_ == "mutate" and isinstance(n_, ast.Assign) for k_, n_ in evs):
+                filled.add(a_)
+    filled -= {"clients", "_brokers"}  # connections and addresses are handled by close() itself
+    r.check(bool(filled) and filled <= cleared, "%s#clears-every-filled-cache" % ram.qname,
+            "reset_all_metadata leaves %s, which the metadata merge fills" % sorted(filled - cleared), where(ram, ram.node),
+            "after close() (or a full reset) the client still answers from cached per-partition data")
     r.check({"topics_to_brokers", "topic_partitions", "topic_errors", "_group_to_coordinator"} <= cleared, "%s#clears-routing-maps" % ram.qname,
             "reset_all_metadata leaves %s" % sorted({"topics_to_brokers", "topic_partitions", "topic_errors", "_group_to_coordinator"} - cleared),
             where(ram, ram.node), facts=sorted(cleared))
 
 
 MUTANTS = [
+    {"id": "partition-meta-survives-reset", "file": "client.py", "old": "        self.partition_meta.clear()\n", "new": "", "expect": "C20.R5", "note": "finding F24"},
     {"id": "bootstrap-loop-no-recheck", "file": "client.py",
      "old": "            if self._closing:\n                raise CancelledError(message=\"{} was closed while bootstrapping\".format(self))\n            ep = ",
      "new": "            ep = ", "expect": "C20.R4"},
